@@ -173,7 +173,7 @@ def _baseline_main():
     print(json.dumps(out))
 
 
-STATEFUL = [2, 3, 4, 5, 6, 7, 13, 8]     # commands whose implementation keeps or could keep state between calls
+STATEFUL = [2, 3, 4, 5, 6, 7]     # commands whose implementation keeps or could keep state between calls
 
 
 def history(k, p, sub=False, **kw):
